@@ -828,5 +828,5 @@ func TestC10(t *testing.T) {
 	r := newRec("C10",
 		"a case is (base collection c, function, criterion / n / other collection d): c comes from a variable holding 0..8 pool items (Integers/Decimals equal across types, strings, dates of mixed precision, Booleans, quantities, FHIR primitive elements, complex elements; duplicates by construction), from a path on the fixture Patient, or from a path / children() / descendants() / extension on a generated resource of any R4 type; criteria have a harness-side truth function ($this > 1, $this.length() <= 1, $this is System.Integer, family.exists(), use = 'official', id.exists(), constants true/false/{}/1); n ∈ [-3, 11] ∪ boundary int32; d = subset of c ∪ fresh items ∪ cross-type equals.  The item list is c's own evaluation result; oracles: list model (pointer identity for elements) + the metamorphic equalities of the statement evaluated by the library.  non-trivial = count(c) ≥ 2 and (the criterion is true for a proper non-empty subset, or n strictly inside (0,count), or c and d overlap partially, or c has duplicates); distinct = FNV-64 of the case",
 		"equality classes for distinct/exclude/intersect follow M-CMP (C05) for System values and proto.Equal for complex elements", "criteria that are not applicable to some item of c (wrong type) are executed but only exists(p) ≡ where(p).exists() is asserted")
-	runProperty(t, r, Stage[c10Case]{Name: "algebra", Gen: c10Gen, Run: c10Run, N: pick(10000, 250000)})
+	runProperty(t, r, Stage[c10Case]{Name: "algebra", Gen: c10Gen, Run: c10Run, N: pick(30000, 250000)})
 }
